@@ -663,6 +663,7 @@ Section NoCache.
     destruct (push_to_block2 E p o c) as [[o1|o1] c1]; cbn [fst res_obj] in *; [|exact K].
     destruct (a_close_obj p); [|exact K].
     destruct (r_state o1); try exact K.
+    destruct (r_writer o1); [|exact K].
     pose proof (nc_error o1 true c1) as K2. destruct (error o1 true c1) as [o2 c2]. cbn [fst res_obj] in *. congruence.
   Qed.
 End NoCache.
@@ -1168,13 +1169,15 @@ Section Session.
   Qed.
 
   (* one more packet of the object before any FDT instance: decoded, nothing written, the log untouched *)
-  Lemma pre_or_push o c p sbn esi : PreS o -> a_toi p = toi -> a_cenc p = None -> a_close_obj p = false ->
+  (* a close-object flag on such a packet is ignored: the object has no writer yet (D44) *)
+  Lemma pre_or_push o c p sbn esi : PreS o -> a_toi p = toi -> a_cenc p = None ->
     genuine_at oti content al as_ nal n p sbn esi ->
     exists o1, or_push E p o c = (o1, c) /\ PreS o1 /\ Mono o o1 /\ LiveOne sbn esi o1.
   Proof.
-    intros PS Ht Hcp Hcl G. rewrite (pre_or_push_static o c p PS Ht Hcp).
+    intros PS Ht Hcp G. rewrite (pre_or_push_static o c p PS Ht Hcp).
     destruct (pre_p2b o c p sbn esi PS G) as (o1 & Eq & P1 & M1 & L1).
-    unfold push_to_block. rewrite Eq, Hcl. exists o1. split; [reflexivity|]. split; [exact P1|split; assumption].
+    unfold push_to_block. rewrite Eq, (ps_state _ P1), (ps_writer _ P1).
+    exists o1. split; [destruct (a_close_obj p); reflexivity|]. split; [exact P1|split; assumption].
   Qed.
 
   Definition pre_init : objrecv :=
@@ -1190,11 +1193,11 @@ Section Session.
     - lia.
   Qed.
 
-  Lemma pre_first c p sbn esi : a_toi p = toi -> a_oti p = Some (oti, Lc) -> a_cenc p = None -> a_close_obj p = false ->
+  Lemma pre_first c p sbn esi : a_toi p = toi -> a_oti p = Some (oti, Lc) -> a_cenc p = None ->
     genuine_at oti content al as_ nal n p sbn esi ->
     exists o1, or_push E p (or_new toi max) c = (o1, c) /\ PreS o1 /\ LiveOne sbn esi o1.
   Proof.
-    intros Ht Ho Hcp Hcl G.
+    intros Ht Ho Hcp G.
     assert (Eq : or_push E p (or_new toi max) c = or_push E p pre_init c).
     { rewrite (pre_or_push_static pre_init c p pre_init_ok Ht Hcp).
       unfold or_push, or_new. prj. rewrite Ht, Hcp, Ho. destruct (N.eqb_spec toi 0) as [G0|_]; [contradiction|]. cbv iota beta.
@@ -1210,7 +1213,7 @@ Section Session.
       rewrite I2. cbv iota beta. change (r_state pre_init) with Receiving. cbv iota beta.
       rewrite I3. cbv iota beta. change (r_state pre_init) with Receiving. cbv iota beta.
       change (r_oti pre_init) with (Some oti). cbv iota beta. reflexivity. }
-    rewrite Eq. destruct (pre_or_push pre_init c p sbn esi pre_init_ok Ht Hcp Hcl G) as (o1 & E1 & P1 & _ & L1).
+    rewrite Eq. destruct (pre_or_push pre_init c p sbn esi pre_init_ok Ht Hcp G) as (o1 & E1 & P1 & _ & L1).
     exists o1. split; [exact E1|split; assumption].
   Qed.
 
@@ -1337,15 +1340,15 @@ Section Session.
   Proof. intros (o & H). exists o. exact H. Qed.
 
   (* what S2 asks of a packet that arrives before the FDT instance: EXT_FTI with the object's OTI and
-     length, no EXT_CENC, no close-object flag *)
+     length, no EXT_CENC; it may carry the close-object flag (ignored while there is no writer, D44) *)
   Definition PktPre (p : apkt) : Prop :=
-    a_toi p = toi /\ a_oti p = Some (oti, Lc) /\ a_cenc p = None /\ a_close_obj p = false /\ gen p.
+    a_toi p = toi /\ a_oti p = Some (oti, Lc) /\ a_cenc p = None /\ gen p.
 
   Lemma push_obj_pre seen r c p : PreCore seen r -> PktPre p ->
     exists r', push_obj E cfg p now r c = (POk, r', c) /\ PreCore (pid_of p :: seen) r'.
   Proof.
-    intros (o & Hobjs & Hcomp & Herr & Hcur & Hrcv & PS & Lv) (Ht & _ & Hcp & Hcl & Gp).
-    destruct (pre_or_push o c p _ _ PS Ht Hcp Hcl Gp) as (o1 & Eq & P1 & M1 & L1).
+    intros (o & Hobjs & Hcomp & Herr & Hcur & Hrcv & PS & Lv) (Ht & _ & Hcp & Gp).
+    destruct (pre_or_push o c p _ _ PS Ht Hcp Gp) as (o1 & Eq & P1 & M1 & L1).
     unfold push_obj. cbv zeta. rewrite Ht, Hcomp. cbn [existsb]. cbv iota beta. rewrite Herr. cbn [existsb]. cbv iota beta.
     unfold get_obj. rewrite Hobjs. cbn [find fst]. rewrite N.eqb_refl. cbn [snd]. rewrite Eq. rewrite Hobjs.
     unfold put_obj. cbn [existsb fst map]. rewrite N.eqb_refl. cbn [orb].
@@ -1360,8 +1363,8 @@ Section Session.
     rv_objects r = [] -> rv_completed r = [] -> rv_error r = [] -> rv_fdt_current r = [] -> rv_fdt_receivers r = [] ->
     PktPre p -> exists r', push_obj E cfg p now r c = (POk, r', c) /\ PreCore [pid_of p] r'.
   Proof.
-    intros Hobjs Hcomp Herr Hcur Hrcv (Ht & Ho & Hcp & Hcl & Gp).
-    destruct (pre_first c p _ _ Ht Ho Hcp Hcl Gp) as (o1 & Eq & P1 & L1).
+    intros Hobjs Hcomp Herr Hcur Hrcv (Ht & Ho & Hcp & Gp).
+    destruct (pre_first c p _ _ Ht Ho Hcp Gp) as (o1 & Eq & P1 & L1).
     unfold push_obj. cbv zeta. rewrite Ht, Hcomp. cbn [existsb]. cbv iota beta. rewrite Herr. cbn [existsb]. cbv iota beta.
     unfold get_obj. rewrite Hobjs. cbn [find]. rewrite Hcur. cbn [create_attach]. rewrite Eq.
     cbn [rv_objects app]. unfold put_obj. cbn [existsb fst map]. rewrite N.eqb_refl. cbn [orb].
@@ -1563,9 +1566,50 @@ Proof.
 Qed.
 Print Assumptions session_fdt_first_delivers.
 
-(* S2: packets of the object carrying EXT_FTI arrive BEFORE the FDT instance (no close-object flag among them, no
-   EXT_CENC): they are decoded without writer; the instance opens the writer and flushes the completed blocks;
-   the rest of the packets follow.  S1 is the case pkts1 = []. *)
+(* S2: packets of the object carrying EXT_FTI arrive BEFORE the FDT instance (no EXT_CENC): they are decoded without
+   writer; the instance opens the writer and flushes the completed blocks; the rest of the packets follow.  S1 is the
+   case pkts1 = [].  The packets of pkts1 may carry the close-object flag anywhere (D44: ignored while the object has
+   no writer); a flag in pkts2 comes only once the packets up to it, pkts1 included, are recoverable. *)
+Theorem session_fdt_late_delivers_any_flag_before_fdt E parse_fdt cfg oti content toi md5 now pf id foti d inst pkts1 pkts2 :
+  let L := lenN_ content in
+  nocode_ok oti L -> toi <> 0 ->
+  fdt_pkt_ok pf id foti d -> parse_fdt d = Some inst -> fdt_live cfg inst pf now ->
+  fdt_entry_for (fi_files inst) (fi_oti inst) toi oti L md5 ->
+  writer_accepts E toi -> writes_succeed E toi -> md5_good E content md5 ->
+  L <= cf_max_cache cfg -> nb_blocks_of oti L <= 4097 ->
+  Forall (fun p => a_toi p = toi) (pkts1 ++ pkts2) ->
+  Forall (fun p => genuine_pkt oti content p = true) (pkts1 ++ pkts2) ->
+  Forall (fun p => a_oti p = Some (oti, L) /\ a_cenc p = None) pkts1 ->
+  close_flag_ok_after (recoverable oti L) pkts1 pkts2 ->
+  recoverable oti L (pkts1 ++ pkts2) = true ->
+  let '(_, r, c) := recv_run E parse_fdt cfg recv0 (map (fun p => RvPush p now) (pkts1 ++ pf :: pkts2)) ctx0 in
+  session_delivered cfg inst content toi r c.
+Proof.
+  intros L (Hfec & He & Hb & HL & Hu) Htoi Hpf Hparse Hlive (f & F1 & F2 & F3 & F4 & F5) Hacc Hwr Hmd5 Hmax Hn T G Pre1 Cl Rec.
+  destruct (partition_of oti L) as [[[al as_] nal] n] eqn:Hpart. unfold partition_of in Hpart.
+  assert (Hnb : nb_blocks_of oti L = n) by (unfold nb_blocks_of; rewrite Hpart; reflexivity).
+  assert (Cov : forall l, recoverable oti L l = true -> covered al as_ nal n (map pid_of l)).
+  { intros l H. apply recoverable_covered. unfold recoverable, source_ks, partition_of in H. rewrite Hpart in H. exact H. }
+  assert (Nc : Nice2 E content (toi, 0%nat) md5 (cf_max_cache cfg) n).
+  { split; [split; [exact Hwr|exact Hmd5]|]. split; [exact Hmax|]. rewrite <- Hnb. exact Hn. }
+  apply Forall_app in T. destruct T as [T1 T2]. apply Forall_app in G. destruct G as [G1 G2].
+  pose proof (genuine_pkt_spec _ _ _ _ _ _ _ Hpart G1) as G1'. pose proof (genuine_pkt_spec _ _ _ _ _ _ _ Hpart G2) as G2'.
+  assert (P1 : Forall (PktPre oti content toi al as_ nal n) pkts1).
+  { rewrite Forall_forall in *. intros p Hp. destruct (Pre1 p Hp) as (A1 & A2).
+    split; [exact (T1 p Hp)|]. split; [exact A1|]. split; [exact A2|exact (G1' p Hp)]. }
+  pose proof (fdt_late_delivers E parse_fdt cfg oti content toi md5 al as_ nal n now Hfec He Hb HL Hu Hpart Htoi Nc Hacc
+                id inst f F1 F2 F3 F4 F5 pf foti d Hpf Hparse Hlive pkts1 pkts2 P1 G2' T2) as D.
+  assert (D' : let '(_, r, c) := recv_run E parse_fdt cfg recv0 (map (fun p => RvPush p now) (pkts1 ++ pf :: pkts2)) ctx0 in
+               SessDone cfg content toi f r c).
+  { apply D.
+    - intros pre p post Eq Hp. apply Cov. exact (Cl pre p post Eq Hp).
+    - apply Cov. exact Rec. }
+  destruct (recv_run E parse_fdt cfg recv0 (map (fun p => RvPush p now) (pkts1 ++ pf :: pkts2)) ctx0) as [[xs r] c].
+  eapply sess_done_delivered; eassumption.
+Qed.
+Print Assumptions session_fdt_late_delivers_any_flag_before_fdt.
+
+(* the statement as it was before D44 was repaired (pkts1 flag-free, close_flag_ok of the whole list): a corollary *)
 Theorem session_fdt_late_delivers E parse_fdt cfg oti content toi md5 now pf id foti d inst pkts1 pkts2 :
   let L := lenN_ content in
   nocode_ok oti L -> toi <> 0 ->
@@ -1581,28 +1625,11 @@ Theorem session_fdt_late_delivers E parse_fdt cfg oti content toi md5 now pf id 
   let '(_, r, c) := recv_run E parse_fdt cfg recv0 (map (fun p => RvPush p now) (pkts1 ++ pf :: pkts2)) ctx0 in
   session_delivered cfg inst content toi r c.
 Proof.
-  intros L (Hfec & He & Hb & HL & Hu) Htoi Hpf Hparse Hlive (f & F1 & F2 & F3 & F4 & F5) Hacc Hwr Hmd5 Hmax Hn T G Pre1 Cl Rec.
-  destruct (partition_of oti L) as [[[al as_] nal] n] eqn:Hpart. unfold partition_of in Hpart.
-  assert (Hnb : nb_blocks_of oti L = n) by (unfold nb_blocks_of; rewrite Hpart; reflexivity).
-  assert (Cov : forall l, recoverable oti L l = true -> covered al as_ nal n (map pid_of l)).
-  { intros l H. apply recoverable_covered. unfold recoverable, source_ks, partition_of in H. rewrite Hpart in H. exact H. }
-  assert (Nc : Nice2 E content (toi, 0%nat) md5 (cf_max_cache cfg) n).
-  { split; [split; [exact Hwr|exact Hmd5]|]. split; [exact Hmax|]. rewrite <- Hnb. exact Hn. }
-  apply Forall_app in T. destruct T as [T1 T2]. apply Forall_app in G. destruct G as [G1 G2].
-  pose proof (genuine_pkt_spec _ _ _ _ _ _ _ Hpart G1) as G1'. pose proof (genuine_pkt_spec _ _ _ _ _ _ _ Hpart G2) as G2'.
-  assert (P1 : Forall (PktPre oti content toi al as_ nal n) pkts1).
-  { rewrite Forall_forall in *. intros p Hp. destruct (Pre1 p Hp) as (A1 & A2 & A3).
-    split; [exact (T1 p Hp)|]. split; [exact A1|]. split; [exact A2|]. split; [exact A3|exact (G1' p Hp)]. }
-  pose proof (fdt_late_delivers E parse_fdt cfg oti content toi md5 al as_ nal n now Hfec He Hb HL Hu Hpart Htoi Nc Hacc
-                id inst f F1 F2 F3 F4 F5 pf foti d Hpf Hparse Hlive pkts1 pkts2 P1 G2' T2) as D.
-  assert (D' : let '(_, r, c) := recv_run E parse_fdt cfg recv0 (map (fun p => RvPush p now) (pkts1 ++ pf :: pkts2)) ctx0 in
-               SessDone cfg content toi f r c).
-  { apply D.
-    - intros pre p post Eq Hp. apply Cov. rewrite app_assoc. apply (Cl (pkts1 ++ pre) p post); [|exact Hp].
-      rewrite Eq, <- app_assoc. reflexivity.
-    - apply Cov. exact Rec. }
-  destruct (recv_run E parse_fdt cfg recv0 (map (fun p => RvPush p now) (pkts1 ++ pf :: pkts2)) ctx0) as [[xs r] c].
-  eapply sess_done_delivered; eassumption.
+  intros L H1 H2 H3 H4 H5 H6 H7 H8 H9 H10 H11 T G Pre1 Cl Rec.
+  apply (session_fdt_late_delivers_any_flag_before_fdt E parse_fdt cfg oti content toi md5 now pf id foti d inst pkts1 pkts2);
+    try assumption.
+  - eapply Forall_impl; [|exact Pre1]. intros p (A1 & A2 & _). split; assumption.
+  - apply close_flag_ok_after_of_whole. exact Cl.
 Qed.
 Print Assumptions session_fdt_late_delivers.
 
@@ -1709,19 +1736,48 @@ Example fdt_expired_refuted :
      = ([POk; POk; POk; POk; POk; POk], [], [7], [], delivered_log).
 Proof. vm_compute. repeat split. Qed.
 
-(* REFUTATION 2 (S2, no close-object flag before the FDT instance): the in-order transfer with the B flag on its
-   last packet, every packet carrying EXT_FTI, arrives entirely BEFORE the FDT instance: the object is decoded
-   completely, then interrupted by the flag for want of a writer, dropped and listed in rv_error; the FDT instance
-   that follows finds nothing to attach.  All source symbols and the FDT were received; nothing is delivered
-   (a later transfer is picked up only from its symbol (0,0) on). *)
-Example close_flag_before_fdt_refuted :
+(* FORMER REFUTATION 2 (S2, no close-object flag before the FDT instance; defect D44, repaired): the in-order
+   transfer with the B flag on its last packet, every packet carrying EXT_FTI, arrives entirely BEFORE the FDT
+   instance.  Before the repair the object was decoded completely, then interrupted by the flag for want of a
+   writer, dropped and listed in rv_error, and the FDT instance that followed found nothing to attach.  Now the
+   flag is ignored while the object has no writer: the instance opens the writer, the completed blocks are flushed
+   and the object is delivered, exactly as when the FDT comes first. *)
+Example close_flag_before_fdt_now_delivered :
   forallb (genuine_pkt ex_oti ex_content) (map with_fti ex_pkts_inorder) = true
   /\ recoverable ex_oti 5 (map with_fti ex_pkts_inorder) = true
   /\ sess (tx_parse false None) (tx_cfg true false) (map with_fti ex_pkts_inorder ++ [tx_fdt None])
-     = ([POk; POk; POk; POk], [], [], [7], [])
+     = ([POk; POk; POk; POk], [], [7], [], delivered_log)
   /\ sess (tx_parse false None) (tx_cfg true false) (tx_fdt None :: map with_fti ex_pkts_inorder)
      = ([POk; POk; POk; POk], [], [7], [], delivered_log).
 Proof. vm_compute. repeat split. Qed.
+
+(* the same by the theorem without the flag premise: pkts1 = the whole flagged transfer, pkts2 = [] *)
+Example close_flag_before_fdt_by_theorem :
+  map a_close_obj (map with_fti ex_pkts_inorder) = [false; false; true]
+  /\ let '(_, r, c) := recv_run env_ok (tx_parse false None) (tx_cfg true false) recv0
+                               (map (fun p => RvPush p 100%Z) (map with_fti ex_pkts_inorder ++ tx_fdt None :: [])) ctx0 in
+     session_delivered (tx_cfg true false) (tx_inst false None) ex_content 7 r c.
+Proof.
+  split; [vm_compute; reflexivity|].
+  apply (session_fdt_late_delivers_any_flag_before_fdt env_ok (tx_parse false None) (tx_cfg true false) ex_oti ex_content 7 None 100%Z
+           (tx_fdt None) 1 tx_foti tx_doc (tx_inst false None) (map with_fti ex_pkts_inorder) []).
+  - repeat split; vm_compute; reflexivity.
+  - discriminate.
+  - apply tx_fdt_ok.
+  - reflexivity.
+  - left. reflexivity.
+  - exists (mk_ff 7 CNull (Some ex_oti) 5 None None false). repeat split.
+  - split; reflexivity.
+  - intros i. reflexivity.
+  - exact I.
+  - vm_compute. discriminate.
+  - vm_compute. discriminate.
+  - repeat constructor.
+  - repeat constructor.
+  - repeat constructor.
+  - apply close_flag_ok_after_noflag. constructor.
+  - vm_compute. reflexivity.
+Qed.
 
 (* SURPRISE 1 (Cache-Control no-cache): a completed no-cache object is not recorded in rv_completed, so ANY late
    duplicate of the TOI (here symbol (0,1)) re-creates the object and opens a second writer (7,1), also with
